@@ -6,14 +6,21 @@
 #![allow(unused, clippy::all)]
 
 pub mod util;
+pub mod c01;
 pub mod c03;
+pub mod c04;
 pub mod c06;
 pub mod c07;
 pub mod c08;
 pub mod c09;
 pub mod c10;
 pub mod c15;
+pub mod c16;
+pub mod c17;
 pub mod c18;
 pub mod c19;
+
+
+use c16::A;
 
 include!("registry.rs");
